@@ -465,6 +465,9 @@ class Ex:
         r = self.new_obj(name)
         lst = Val(Ty("list", args=[et]), r)
         self.hset(f"$len<{self.part(et)}>", INT, z3.Store(self.len_map(et), r, z3.IntVal(0)))
+        # ghost fields of a new list have their default values (no role, no owner) until a ghost statement sets them
+        if (None, "$kind") in spec.FIELD_TYPES:
+            self.assume(self.hmap("$kind", INT)[r] == 0)
         return lst
 
     def set_len(self, lst, n):
